@@ -11,9 +11,9 @@ import (
 type Rec struct {
 	Null bool // drop everything without taking the mutex (the race workload must not be serialised by the recorder)
 	mu   sync.Mutex
-	f  *os.File
-	w  *bufio.Writer
-	N  int
+	f    *os.File
+	w    *bufio.Writer
+	N    int
 }
 
 func NewRec(path string) *Rec {
